@@ -140,7 +140,11 @@ pub fn check_lex(ctx: &mut Ctx, text: &str) {
         Ok(Ok(toks)) => {
             let eofs = toks.iter().filter(|t| **t == rsbdd::parser::SymbolicBDDToken::Eof).count();
             let it: Vec<Tok> = toks.iter().filter_map(conv_tok).collect();
-            if it != rf {
+            if it.iter().any(|t| matches!(t, Tok::Ref(r) if r.starts_with(crate::conv::UNKNOWN_TOKEN_KIND))) {
+                // the tokenizer has token kinds the documented alphabet does not have; the property is
+                // about the resulting syntax tree, which the parse-level sweeps judge
+                ctx.count("lex_unknown_token_kind_not_judged", 1);
+            } else if it != rf {
                 viol(ctx, format!("token list differs: longest-match scanner gives {:?}, tokenizer gives {:?}", rf, it));
             } else if eofs != 1 || toks.last() != Some(&rsbdd::parser::SymbolicBDDToken::Eof) {
                 viol(ctx, format!("end-of-input marker missing or repeated: {:?}", toks));
